@@ -503,9 +503,9 @@ Definition want_flags (tfo : bool) (pending : list Z) : Z :=
     (Z.lor (if tfo then ARES_CONN_STATE_WRITE else 0)
            (if negb (Z.of_nat (length pending) =? 0) then ARES_CONN_STATE_WRITE else 0)).
 
-Lemma flush_done_spec c tfo : owf c ->
-  exists c' evs, flush_done c tfo = Ok (c', evs) /\ c_out c' = c_out c /\ c_tcp c' = c_tcp c /\
-    server_bytes evs = [] /\ c_rw c' = want_flags tfo (remaining (c_out c)) /\
+Lemma flush_done_spec c : owf c ->
+  exists c' evs, flush_done c = Ok (c', evs) /\ c_out c' = c_out c /\ c_tcp c' = c_tcp c /\
+    server_bytes evs = [] /\ c_rw c' = want_flags (c_tcp c && negb (c_connected c)) (remaining (c_out c)) /\
     c_connected c' = c_connected c /\ c_tfo_initial c' = c_tfo_initial c.
 Proof.
   intros (H1 & H2 & H3). unfold flush_done. destruct (c_out c) as [d off t] eqn:Eo.
@@ -528,7 +528,7 @@ Definition flush_post (c : conn) (ws : list wcap) (c' : conn) (st : Z) (evs : li
   c_tcp c' = true /\ owf c' /\ b_data (c_out c') = b_data (c_out c) /\
   server_bytes evs ++ remaining (c_out c') = remaining (c_out c) /\
   (st = ARES_SUCCESS \/ st = ARES_ECONNREFUSED) /\
-  (st = ARES_SUCCESS -> c_rw c' = want_flags (c_tfo_initial c) (remaining (c_out c'))) /\
+  (st = ARES_SUCCESS -> c_rw c' = want_flags (negb (c_connected c)) (remaining (c_out c'))) /\
   c_connected c' = c_connected c /\
   (c_connected c = true -> c_tfo_initial c = false ->
      match hd_cap ws with
@@ -545,7 +545,7 @@ Proof.
   rewrite buf_len_eq by lia. cbn [bind].
   destruct (Z.eqb_spec (Z.of_nat (length d) - off) 0) as [Hz|Hnz].
   - (* nothing pending *)
-    destruct (flush_done_spec c (c_tfo_initial c) Hwf) as (c' & evs & Hf & Ho & Ht & Hs & Hrw & Hcn & Htf).
+    destruct (flush_done_spec c Hwf) as (c' & evs & Hf & Ho & Ht & Hs & Hrw & Hcn & Htf).
     rewrite Hf. cbn [bind fst snd]. exists c', ARES_SUCCESS, evs, ws.
     rewrite Ho, Eo, Hs. cbn [app]. splits.
     + reflexivity.
@@ -554,7 +554,7 @@ Proof.
     + reflexivity.
     + reflexivity.
     + left; reflexivity.
-    + intros _. rewrite Hrw, Eo. reflexivity.
+    + intros _. rewrite Hrw, Htcp, Eo. reflexivity.
     + exact Hcn.
     + intros _ _. destruct (hd_cap ws); auto. intros _. unfold remaining. cbn [b_off b_data].
       rewrite skipn_length. lia.
@@ -566,7 +566,7 @@ Proof.
     unfold conn_write. rewrite Htcp. cbn [andb].
     destruct (negb (c_connected c) && negb (c_tfo_initial c)) eqn:Enc.
     + (* not connected yet: ARES_CONN_ERR_WOULDBLOCK without a socket call *)
-      destruct (flush_done_spec c (c_tfo_initial c) Hwf) as (c' & evs & Hf & Ho & Ht & Hs & Hrw & Hcn & Htf).
+      destruct (flush_done_spec c Hwf) as (c' & evs & Hf & Ho & Ht & Hs & Hrw & Hcn & Htf).
       rewrite Hf. cbn [bind fst snd app]. exists c', ARES_SUCCESS, evs, ws.
       rewrite Ho, Eo, Hs. cbn [app]. splits.
       * reflexivity.
@@ -575,7 +575,7 @@ Proof.
       * reflexivity.
       * reflexivity.
       * left; reflexivity.
-      * intros _. rewrite Hrw, Eo. reflexivity.
+      * intros _. rewrite Hrw, Htcp, Eo. reflexivity.
       * exact Hcn.
       * intros Hc Ht0. rewrite Hc, Ht0 in Enc. discriminate.
     + set (c1 := mkconn true (c_connected c) false (c_out c) (c_rw c)).
@@ -587,7 +587,7 @@ Proof.
            cbn zeta in Hu. destruct (sock_state_update c1 (Z.lor ARES_CONN_STATE_READ ARES_CONN_STATE_WRITE)) as [c2 ev2].
            cbn [fst snd] in Hu. destruct Hu as (Hu1 & Hu2 & Hu3 & Hu4 & Hu5 & Hu6).
            assert (Hwf2 : owf c2) by (unfold owf; rewrite Hu1; exact Hwf1).
-           destruct (flush_done_spec c2 (c_tfo_initial c) Hwf2) as (c' & evs & Hf & Ho & Ht & Hs & Hrw & Hcn & Htf).
+           destruct (flush_done_spec c2 Hwf2) as (c' & evs & Hf & Ho & Ht & Hs & Hrw & Hcn & Htf).
            rewrite Hf. cbn [bind fst snd]. eexists c', ARES_SUCCESS, _, _. split; [reflexivity|].
            rewrite Ho, Hu1. unfold c1. cbn [c_out]. rewrite Eo.
            cbn [server_bytes app]. rewrite server_bytes_app, Hu4, Hs. cbn [app]. splits.
@@ -596,7 +596,7 @@ Proof.
            ++ reflexivity.
            ++ reflexivity.
            ++ left; reflexivity.
-           ++ intros _. rewrite Hrw, Hu1. unfold c1. cbn [c_tcp c_out]. rewrite Eo. reflexivity.
+           ++ intros _. rewrite Hrw, Hu1, Hu2, Hu5. unfold c1. cbn [c_tcp c_out c_connected]. rewrite Eo. reflexivity.
            ++ rewrite Hcn, Hu5. reflexivity.
            ++ intros _ _ Hpos. lia.
         -- (* n > 0: min(n, len) bytes accepted *)
@@ -616,7 +616,7 @@ Proof.
               rewrite buf_consume_ok by lia. cbn [bind snd].
               set (c3 := set_out c2 (mkbuf d (off + written) SIZE_MAX)).
               assert (Hwf3 : owf c3) by (unfold owf, c3, set_out; cbn [c_out]; unfold data_len; cbn; lia).
-              destruct (flush_done_spec c3 (c_tfo_initial c) Hwf3) as (c' & evs & Hf & Ho & Ht & Hs & Hrw & Hcn & Htf).
+              destruct (flush_done_spec c3 Hwf3) as (c' & evs & Hf & Ho & Ht & Hs & Hrw & Hcn & Htf).
               rewrite Hf. cbn [bind fst snd]. eexists c', ARES_SUCCESS, _, _. split; [reflexivity|].
               rewrite Ho. unfold c3, set_out. cbn [c_out c_tcp].
               rewrite !server_bytes_app. cbn [server_bytes]. rewrite Hu4, Hs. rewrite !app_nil_r.
@@ -628,7 +628,7 @@ Proof.
               ** reflexivity.
               ** exact Hsplit.
               ** left; reflexivity.
-              ** intros _. rewrite Hrw. unfold c3, set_out. cbn [c_tcp c_out].
+              ** intros _. rewrite Hrw. unfold c3, set_out. cbn [c_tcp c_out c_connected]. rewrite Hu2, Hu5. unfold c1. cbn [c_tcp c_connected].
                  unfold remaining. cbn [b_off b_data].
                  replace (Z.to_nat (off + written)) with (Z.to_nat off + Z.to_nat written)%nat by lia. reflexivity.
               ** rewrite Hcn. unfold c3, set_out. cbn [c_connected]. rewrite Hu5. reflexivity.
@@ -638,7 +638,7 @@ Proof.
               rewrite buf_consume_ok by lia. cbn [bind snd].
               set (c3 := set_out c1 (mkbuf d (off + written) SIZE_MAX)).
               assert (Hwf3 : owf c3) by (unfold owf, c3, set_out; cbn [c_out]; unfold data_len; cbn; lia).
-              destruct (flush_done_spec c3 (c_tfo_initial c) Hwf3) as (c' & evs & Hf & Ho & Ht & Hs & Hrw & Hcn & Htf).
+              destruct (flush_done_spec c3 Hwf3) as (c' & evs & Hf & Ho & Ht & Hs & Hrw & Hcn & Htf).
               rewrite Hf. cbn [bind fst snd]. eexists c', ARES_SUCCESS, _, _. split; [reflexivity|].
               rewrite Ho. unfold c3, set_out. cbn [c_out c_tcp].
               rewrite !server_bytes_app. cbn [server_bytes]. rewrite Hs. rewrite !app_nil_r.
@@ -650,7 +650,7 @@ Proof.
               ** reflexivity.
               ** exact Hsplit.
               ** left; reflexivity.
-              ** intros _. rewrite Hrw. unfold c3, set_out, c1. cbn [c_tcp c_out].
+              ** intros _. rewrite Hrw. unfold c3, set_out, c1. cbn [c_tcp c_out c_connected].
                  unfold remaining. cbn [b_off b_data].
                  replace (Z.to_nat (off + written)) with (Z.to_nat off + Z.to_nat written)%nat by lia. reflexivity.
               ** rewrite Hcn. reflexivity.
@@ -820,7 +820,7 @@ Proof.
     destruct Hwf as (W1 & W2 & W3). destruct (c_out c) as [d off t] eqn:Eo. unfold data_len in *.
     cbn [b_data b_off b_tag] in *. subst t. rewrite buf_len_eq by lia. cbn [bind].
     destruct (Z.of_nat (length d) - off =? 0).
-    - destruct (flush_done_spec c (c_tfo_initial c)) as (c2 & e2 & Hd & _).
+    - destruct (flush_done_spec c) as (c2 & e2 & Hd & _).
       { unfold owf. rewrite Eo. unfold data_len. cbn. lia. }
       rewrite Hd. cbn [bind]. intros Heq. inversion Heq; subst. discriminate.
     - rewrite Htcp. cbn iota. unfold buf_peek. unfold data_len. cbn [b_off b_data].
@@ -830,12 +830,12 @@ Proof.
       destruct (Z.of_nat (length (skipn (Z.to_nat off) d)) =? Z.min n (Z.of_nat (length (skipn (Z.to_nat off) d)))).
       + destruct (sock_state_update _ _) as [c2 e2].
         destruct (buf_consume _ _) as [[? ?]| |]; cbn [bind]; try discriminate.
-        destruct (flush_done _ _) as [[? ?]| |]; cbn [bind]; try discriminate.
+        destruct (flush_done _) as [[? ?]| |]; cbn [bind]; try discriminate.
         intros Heq. inversion Heq; subst. discriminate.
       + destruct (buf_consume _ _) as [[? ?]| |]; cbn [bind]; try discriminate.
-        destruct (flush_done _ _) as [[? ?]| |]; cbn [bind]; try discriminate.
+        destruct (flush_done _) as [[? ?]| |]; cbn [bind]; try discriminate.
         intros Heq. inversion Heq; subst. discriminate. }
-  split; [exact Hst|]. split; [exact P8|]. rewrite (P6 Hst), Ht. reflexivity.
+  split; [exact Hst|]. split; [exact P8|]. rewrite (P6 Hst), Hc. reflexivity.
 Qed.
 
 (* ------------------------------------------------------------------------------------ *)
@@ -865,7 +865,7 @@ Fixpoint server_dgrams_only_state (evs : list cevent) : Prop :=
   | _ => False
   end.
 
-Lemma flush_done_dgrams c tfo c' evs : flush_done c tfo = Ok (c', evs) ->
+Lemma flush_done_dgrams c c' evs : flush_done c = Ok (c', evs) ->
   server_dgrams evs = [] /\ c_out c' = c_out c /\ c_tcp c' = c_tcp c.
 Proof.
   unfold flush_done. destruct (buf_len (c_out c)) as [l| |]; cbn [bind]; try discriminate.
@@ -891,24 +891,24 @@ Fixpoint udp_sent (msgs : list (list Z)) (ws : list wcap) : nat :=
   | _, _ => 0%nat
   end.
 
-Lemma udp_flush_loop_spec : forall msgs d off fuel tfo c ws,
+Lemma udp_flush_loop_spec : forall msgs d off fuel c ws,
   c_tcp c = false -> c_out c = mkbuf d off SIZE_MAX ->
   0 <= off <= Z.of_nat (length d) -> Z.of_nat (length d) < SIZE_MAX ->
   skipn (Z.to_nat off) d = flat_map frame msgs -> Forall small msgs -> Forall big_or_block ws ->
   (length msgs < fuel)%nat ->
-  exists c' st evs ws', conn_flush_loop fuel tfo c ws = Ok (c', st, evs, ws') /\
+  exists c' st evs ws', conn_flush_loop fuel c ws = Ok (c', st, evs, ws') /\
     server_dgrams evs = firstn (udp_sent msgs ws) msgs /\
     remaining (c_out c') = flat_map frame (skipn (udp_sent msgs ws) msgs) /\
     c_tcp c' = false.
 Proof.
-  induction msgs as [|m ms IH]; intros d off fuel tfo c ws Htcp Eo Hoff Hmax Hrem Hsm Hws Hfuel.
+  induction msgs as [|m ms IH]; intros d off fuel c ws Htcp Eo Hoff Hmax Hrem Hsm Hws Hfuel.
   - destruct fuel as [|f]; [lia|]. cbn [conn_flush_loop]. rewrite Eo.
     rewrite buf_len_eq by lia. cbn [bind].
     pose proof (remaining_length d off Hoff) as Hl. rewrite Hrem in Hl. cbn in Hl.
     destruct (Z.eqb_spec (Z.of_nat (length d) - off) 0); [|lia].
-    destruct (flush_done_spec c tfo) as (c' & evs & Hf & Ho & Ht & _).
+    destruct (flush_done_spec c) as (c' & evs & Hf & Ho & Ht & _).
     { unfold owf. rewrite Eo. unfold data_len. cbn. lia. }
-    rewrite Hf. cbn [bind fst snd]. destruct (flush_done_dgrams _ _ _ _ Hf) as (Hd & _ & _).
+    rewrite Hf. cbn [bind fst snd]. destruct (flush_done_dgrams _ _ _ Hf) as (Hd & _ & _).
     exists c', ARES_SUCCESS, evs, ws. split; [reflexivity|].
     cbn [udp_sent firstn skipn flat_map]. rewrite Ho, Eo. unfold remaining. cbn [b_off b_data].
     rewrite Hrem. cbn. repeat split; auto. congruence.
@@ -941,9 +941,9 @@ Proof.
       pose proof (sock_state_update_spec (mkconn (c_tcp c0) (c_connected c0) false (c_out c0) (c_rw c0))
                     (Z.lor ARES_CONN_STATE_READ ARES_CONN_STATE_WRITE)) as Hu.
       cbn zeta in Hu. rewrite Eu in Hu. cbn [fst snd c_out c_tcp] in Hu. destruct Hu as (Hu1 & Hu2 & _).
-      destruct (flush_done_spec c2 tfo) as (c' & evs & Hf & Ho & Ht & _).
+      destruct (flush_done_spec c2) as (c' & evs & Hf & Ho & Ht & _).
       { unfold owf. rewrite Hu1. unfold c0, set_out. cbn [c_out]. unfold data_len. cbn. lia. }
-      rewrite Hf. cbn [bind fst snd tl]. destruct (flush_done_dgrams _ _ _ _ Hf) as (Hd & _ & _).
+      rewrite Hf. cbn [bind fst snd tl]. destruct (flush_done_dgrams _ _ _ Hf) as (Hd & _ & _).
       eexists c', ARES_SUCCESS, _, _. split; [reflexivity|].
       cbn [udp_sent firstn skipn]. rewrite Ho, Hu1. unfold c0, set_out, remaining. cbn [c_out b_off b_data].
       rewrite Hrem. cbn [flat_map]. rewrite Hfr. rewrite server_dgrams_app. cbn [app server_dgrams].
@@ -956,9 +956,9 @@ Proof.
            pose proof (sock_state_update_spec (mkconn (c_tcp c0) (c_connected c0) false (c_out c0) (c_rw c0))
                          (Z.lor ARES_CONN_STATE_READ ARES_CONN_STATE_WRITE)) as Hu.
            cbn zeta in Hu. rewrite Eu in Hu. cbn [fst snd c_out c_tcp] in Hu. destruct Hu as (Hu1 & Hu2 & _).
-           destruct (flush_done_spec c2 tfo) as (c' & evs & Hf & Ho & Ht & _).
+           destruct (flush_done_spec c2) as (c' & evs & Hf & Ho & Ht & _).
            { unfold owf. rewrite Hu1. unfold c0, set_out. cbn [c_out]. unfold data_len. cbn. lia. }
-           rewrite Hf. cbn [bind fst snd]. destruct (flush_done_dgrams _ _ _ _ Hf) as (Hd & _ & _).
+           rewrite Hf. cbn [bind fst snd]. destruct (flush_done_dgrams _ _ _ Hf) as (Hd & _ & _).
            eexists c', ARES_SUCCESS, _, _. split; [reflexivity|].
            cbn [firstn skipn]. rewrite Ho, Hu1. unfold c0, set_out, remaining. cbn [c_out b_off b_data].
            rewrite Hrem. cbn [flat_map]. rewrite Hfr. rewrite server_dgrams_app. cbn [app server_dgrams].
@@ -979,7 +979,7 @@ Proof.
            assert (Hrem' : skipn (Z.to_nat (off + (Z.of_nat (length m) + 2))) d = flat_map frame ms).
            { replace (Z.to_nat (off + (Z.of_nat (length m) + 2))) with (S (S (length m)) + Z.to_nat off)%nat by lia.
              rewrite skipn_plus, Hrem. cbn [skipn]. rewrite skipn_app, skipn_all, Nat.sub_diag. reflexivity. }
-           destruct (IH d (off + (Z.of_nat (length m) + 2)) f tfo c3 ws') as (c' & st & evs & ws2 & Hrun & Hd & Hr & Ht); auto.
+           destruct (IH d (off + (Z.of_nat (length m) + 2)) f c3 ws') as (c' & st & evs & ws2 & Hrun & Hd & Hr & Ht); auto.
            ++ unfold c3, set_out. cbn [c_tcp]. rewrite Hu2. unfold c0, set_out. cbn. exact Htcp.
            ++ lia.
            ++ cbn [length] in Hfuel. lia.
@@ -1004,7 +1004,7 @@ Proof.
   intros msgs c ws Htcp (H1 & H2 & H3) Hrem Hsm Hws.
   destruct (c_out c) as [d off t] eqn:Eo. unfold data_len in *. cbn [b_data b_off b_tag] in *. subst t.
   unfold conn_flush. rewrite Eo. cbn [b_data].
-  destruct (udp_flush_loop_spec msgs d off (S (length d)) (c_tfo_initial c) c ws Htcp Eo H1 H2 Hrem Hsm Hws)
+  destruct (udp_flush_loop_spec msgs d off (S (length d)) c ws Htcp Eo H1 H2 Hrem Hsm Hws)
     as (c' & st & evs & ws' & Hrun & Hd & Hr & _).
   - assert (Hc : (2 * length msgs <= length (flat_map frame msgs))%nat).
     { clear. induction msgs as [|m ms IH]; cbn [flat_map length]; [lia|].
@@ -1062,7 +1062,7 @@ Section UdpRead.
     { pose proof (parses_count _ _ _ Hp) as Hc. rewrite skipn_length in Hc. lia. }
     destruct (read_answers_loop_spec pa _ _ _ Hp d1 off1 (S (length d1)) Hoff1 ltac:(lia) eq_refl Hfuel)
       as (b1 & Hra & Hb1).
-    exists b1. split; [exact Hra|]. intros Hopen. specialize (Hb1 Hopen). subst b1.
+    exists b1. split; [rewrite Hra; reflexivity|]. intros Hopen. specialize (Hb1 Hopen). subst b1.
     cbn [length]. rewrite Z.sub_0_r. unfold remaining, wf, data_len. cbn [b_off b_data b_tag].
     rewrite Nat2Z.id, skipn_all. repeat split; lia.
   Qed.
@@ -1183,16 +1183,80 @@ Lemma frames_spec ms tl : Forall small ms -> incomplete tl -> frames (flat_map f
 Proof. intros H1 H2. apply parses_frames, parses_flat_map; assumption. Qed.
 
 (* ------------------------------------------------------------------------------------ *)
-(* Data read in the same read_conn_packets() loop as a disconnect (open finding)          *)
+(* Data read in the same read_conn_packets() loop as a disconnect                        *)
 (* ------------------------------------------------------------------------------------ *)
-(* The unrestricted claim "the messages delivered do not depend on how the stream and the
-   disconnect that follows it are grouped into read events" is FALSE for the pinned code: a
-   read that fills the buffer makes the loop read again, and if that read reports EOF the
-   connection is closed with the bytes just read still unparsed. *)
-Theorem data_before_disconnect_refuted :
-  exists (pa : list Z -> bool) (bytes : list Z) b1 b2,
-    (* one read event: a full read, then EOF in the same loop *)
-    run_reads pa true buf_create [[RdBytes false bytes true; RdBytes false [] false]] = Ok (b1, [], Closed) /\
-    (* two read events: the same bytes, EOF seen by the next event *)
-    run_reads pa true buf_create [[RdBytes false bytes false]; [RdBytes false [] false]] = Ok (b2, [ex_msg1], Closed).
-Proof. exists ex_pa, (frame ex_msg1). eexists _, _. split; vm_compute; reflexivity. Qed.
+(* the reads of one TCP read_conn_packets() call before the socket reported a failure *)
+Fixpoint strip_fail (rs : list rd) : list rd :=
+  match rs with
+  | RdBytes rc (x :: bs) true :: rs' => RdBytes rc (x :: bs) true :: strip_fail rs'
+  | _ => []
+  end.
+
+(* ... and the call does end with a failure: EOF, reset or another error *)
+Fixpoint ends_in_failure (rs : list rd) : bool :=
+  match rs with
+  | RdBytes _ [] _ :: _ => true
+  | RdFail :: _ => true
+  | RdBytes _ (_ :: _) true :: rs' => ends_in_failure rs'
+  | _ => false
+  end.
+
+Definition closed_of {A B} (o : outcome (A * B * conn_end)) : outcome (A * B * conn_end) :=
+  match o with Ok (a, b, _) => Ok (a, b, Closed) | x => x end.
+
+Lemma rcp_strip_open : forall rs b b' e, read_conn_packets true b (strip_fail rs) = Ok (b', e) -> e = StillOpen.
+Proof.
+  induction rs as [|r rs IH]; intros b b' e H; cbn in H.
+  - inversion H. reflexivity.
+  - destruct r as [rc bytes full| |]; try (cbn in H; inversion H; reflexivity).
+    destruct bytes as [|x bs]; [cbn in H; inversion H; reflexivity|].
+    destruct full; [|cbn in H; inversion H; reflexivity].
+    cbn [read_conn_packets] in H. destruct (buf_append b rc (x :: bs)) as [b1| |]; cbn [bind] in H; try discriminate.
+    eapply IH; eauto.
+Qed.
+
+Lemma rcp_fail : forall rs b, ends_in_failure rs = true ->
+  read_conn_packets true b rs =
+    match read_conn_packets true b (strip_fail rs) with Ok (b1, _) => Ok (b1, Closed) | x => x end.
+Proof.
+  induction rs as [|r rs IH]; intros b H; cbn in H; [discriminate|].
+  destruct r as [rc bytes full| |]; try discriminate.
+  - destruct bytes as [|x bs]; [reflexivity|]. destruct full; [|discriminate].
+    cbn [read_conn_packets strip_fail]. destruct (buf_append b rc (x :: bs)) as [b1| |]; cbn [bind]; auto.
+  - reflexivity.
+Qed.
+
+Section Disconnect.
+  Variable pa : list Z -> bool.
+
+  Lemma process_read_fail rs b : ends_in_failure rs = true ->
+    process_read pa true b rs = closed_of (process_read pa true b (strip_fail rs)).
+  Proof.
+    intros H. unfold process_read. rewrite (rcp_fail rs b H).
+    destruct (read_conn_packets true b (strip_fail rs)) as [[b1 e]| |] eqn:E; cbn [bind closed_of]; auto.
+    rewrite (rcp_strip_open _ _ _ _ E).
+    destruct (read_answers pa b1) as [[[b2 ms] e2]| |]; cbn [bind closed_of]; auto.
+  Qed.
+
+  (* C20_data_before_disconnect: a connection failure seen in the same read event as data
+     (after reads that filled the buffer) delivers exactly what the same event without the
+     failure delivers; only the fate of the connection differs.  No hypothesis on the earlier
+     events, the bytes or process_answer. *)
+  Theorem data_before_disconnect : forall calls b rs, ends_in_failure rs = true ->
+    run_reads pa true b (calls ++ [rs]) = closed_of (run_reads pa true b (calls ++ [strip_fail rs])).
+  Proof.
+    induction calls as [|c calls IH]; intros b rs H; cbn [app run_reads].
+    - rewrite (process_read_fail rs b H).
+      destruct (process_read pa true b (strip_fail rs)) as [[[b1 ms] e]| |]; cbn [bind closed_of]; auto.
+      destruct e; cbn; rewrite ?app_nil_r; reflexivity.
+    - destruct (process_read pa true b c) as [[[b1 ms] e]| |]; cbn [bind closed_of]; auto.
+      destruct e; [|reflexivity]. rewrite (IH b1 rs H).
+      destruct (run_reads pa true b1 (calls ++ [strip_fail rs])) as [[[b2 ms2] e2]| |]; cbn [bind closed_of]; auto.
+  Qed.
+End Disconnect.
+
+Example ex_disconnect :
+  ends_in_failure [RdBytes false (frame ex_msg1) true; RdBytes false [] false] = true /\
+  exists b, run_reads ex_pa true buf_create [[RdBytes false (frame ex_msg1) true; RdBytes false [] false]]
+            = Ok (b, [ex_msg1], Closed).
+Proof. split; [reflexivity|]. eexists. vm_compute. reflexivity. Qed.
